@@ -25,6 +25,10 @@ def match_slot(exp, slot):
         return slot["k"] == k
     if k == "term":
         return match_term(exp, slot)
+    if k == "baseline":
+        return bool(slot.get("same_as_base"))
+    if k == "famq":
+        return slot["k"] == "unit" and slot.get("group") == exp["fam"] and slot.get("index") == exp["idx"] and close(q_to_fraction(exp["q"]), fnum(slot))
     if k == "uterm":
         if slot["k"] != "unit" or slot.get("u") != exp["u"]:
             return False
